@@ -103,7 +103,13 @@ def run(ctx):
     ctx.assumptions = ['15-bit rational range of the TLC model', 'decimalfp true division guarded (DESIGN 5.2)']
     calcmodel.laws(ctx, 'ord')
     calccheck.run_programs(ctx, programs(ctx), 'compare', sigfn=sig)
+    from checks import bcalccheck
+    bcalccheck.run_cases(ctx, bcalccheck.additive_cases(ctx, ('Cmp',)), 'catalogue-compare')
+    bcalccheck.repo_suite(ctx, {'Cmp'})
 
 
 def replay(ctx, rp):
+    if str(rp['replay'].get('kind')).startswith('bcalc'):
+        from checks import bcalccheck
+        return bcalccheck.replay(ctx, rp)
     calccheck.replay(ctx, rp, sig)
